@@ -473,6 +473,7 @@ func (x *Exec) cellVar(fr *Frame, a *ssa.Alloc) string {
 	name := fr.cellName(a)
 	if _, ok := x.vc.heapSort[name]; !ok {
 		x.vc.heapSort[name] = x.ss.sortOf(deref(a.Type()))
+		x.vc.cellType[name] = deref(a.Type())
 	}
 	return name
 }
